@@ -547,8 +547,26 @@ func polyOf(v ssa.Value, d int) (map[string]int64, string) {
 	}
 	if call, ok := callV.(*ssa.Call); ok && !call.Call.IsInvoke() && len(polyEnv) < 3 {
 		// a module helper that only does the arithmetic (single return of an expression over its parameters)
-		if cal := call.Call.StaticCallee(); cal != nil && len(cal.Blocks) == 1 && strings.HasPrefix(fnPkgPath(cal), modPath) && len(cal.Params) == len(call.Call.Args) {
-			if ret, isRet := cal.Blocks[0].Instrs[len(cal.Blocks[0].Instrs)-1].(*ssa.Return); isRet && resIdx < len(ret.Results) && (len(ret.Results) == 1 || callV != v) {
+		if cal := call.Call.StaticCallee(); cal != nil && len(cal.Blocks) >= 1 && strings.HasPrefix(fnPkgPath(cal), modPath) && len(cal.Params) == len(call.Call.Args) {
+			// the return that computes the value: the only one, or -- for a (values..., ok) helper with early
+			// `return 0, .., false` exits -- the only one whose result is not a constant
+			var ret *ssa.Return
+			nRet := 0
+			for _, cb := range cal.Blocks {
+				r, isRet := cb.Instrs[len(cb.Instrs)-1].(*ssa.Return)
+				if !isRet || resIdx >= len(r.Results) {
+					continue
+				}
+				if _, isConst := r.Results[resIdx].(*ssa.Const); isConst && len(cal.Blocks) > 1 {
+					continue
+				}
+				ret = r
+				nRet++
+			}
+			if nRet != 1 || (len(cal.Blocks) > 1 && callV == v) {
+				ret = nil
+			}
+			if isRet := ret != nil; isRet && resIdx < len(ret.Results) && (len(ret.Results) == 1 || callV != v) {
 				env := map[*ssa.Parameter]map[string]int64{}
 				okArgs := true
 				for i, a := range call.Call.Args {
